@@ -52,16 +52,119 @@ func vcdBytes(label string) []byte {
 	return h[:]
 }
 
-func vcdPart(sch *crypto.Scheme, label string) *pdkg.Participant {
-	k, _ := vcdPoint(sch, "part:"+label).MarshalBinary()
-	return &pdkg.Participant{Address: label + ".verif.test:4444", Key: k, Signature: []byte("sig-" + label)}
+// the address catalogue of Codec.tla (AddrKinds); k distinguishes the holders within one value
+var vcdAddrKinds = []string{"host", "ipv4", "ipv6", "ipv6loop", "ipv6zone", "dot", "upper", "port0", "lead0"}
+
+func vcdAddr(kind string, k int) string {
+	switch kind {
+	case "ipv4":
+		return fmt.Sprintf("10.0.%d.%d:4444", k/200, k%200+1)
+	case "ipv6":
+		return fmt.Sprintf("[2001:db8::%x]:4444", k)
+	case "ipv6loop":
+		if k == 1 {
+			return "[::1]:80"
+		}
+		return fmt.Sprintf("[::%x]:80", k)
+	case "ipv6zone":
+		return fmt.Sprintf("[fe80::%x%%eth0]:4444", k)
+	case "dot":
+		return fmt.Sprintf("node%d.verif.test.:4444", k)
+	case "upper":
+		return fmt.Sprintf("NODE%d.VERIF.TEST:4444", k)
+	case "port0":
+		if k == 1 {
+			return "localhost:0"
+		}
+		return fmt.Sprintf("localhost%d:0", k)
+	case "lead0":
+		return fmt.Sprintf("node%d.verif.test:0080", k)
+	}
+	return fmt.Sprintf("node%d.verif.test:44%d", k, k)
 }
 
-func vcdParts(sch *crypto.Scheme, on int, label string) []*pdkg.Participant {
+var vcdPartNo = map[string]int{"leader": 20, "rem1": 21, "rem2": 22, "join1": 23, "join2": 24, "leave1": 25, "leave2": 26,
+	"acc1": 27, "acc2": 28, "rej1": 29, "rej2": 30}
+
+func vcdPartAddr(kind, label string) string {
+	if kind == "host" {
+		return label + ".verif.test:4444"
+	}
+	return vcdAddr(kind, vcdPartNo[label])
+}
+
+func vcdPart(sch *crypto.Scheme, kind, label string) *pdkg.Participant {
+	k, _ := vcdPoint(sch, "part:"+label).MarshalBinary()
+	return &pdkg.Participant{Address: vcdPartAddr(kind, label), Key: k, Signature: []byte("sig-" + label)}
+}
+
+func vcdParts(sch *crypto.Scheme, kind string, on int, label string) []*pdkg.Participant {
 	if on == 0 {
 		return nil
 	}
-	return []*pdkg.Participant{vcdPart(sch, label+"1"), vcdPart(sch, label+"2")}
+	return []*pdkg.Participant{vcdPart(sch, kind, label+"1"), vcdPart(sch, kind, label+"2")}
+}
+
+// every address a database record carries, in a fixed order
+func vcdAddrsOf(d *DBState) []string {
+	var out []string
+	if d.Leader != nil {
+		out = append(out, d.Leader.GetAddress())
+	}
+	for _, l := range [][]*pdkg.Participant{d.Remaining, d.Joining, d.Leaving, d.Acceptors, d.Rejectors} {
+		for _, p := range l {
+			out = append(out, p.GetAddress())
+		}
+	}
+	if d.FinalGroup != nil {
+		for _, n := range d.FinalGroup.Nodes {
+			if n.Identity != nil {
+				out = append(out, n.Addr)
+			} else {
+				out = append(out, "<no identity>")
+			}
+		}
+	}
+	return out
+}
+
+// the same list as the abstract value v prescribes it for an address kind
+func vcdExpectedAddrs(v map[string]any, kind string) []string {
+	var out []string
+	if vcdInt(v, "leader") == 1 {
+		out = append(out, vcdPartAddr(kind, "leader"))
+	}
+	for _, f := range [][2]string{{"remaining", "rem"}, {"joining", "join"}, {"leaving", "leave"}, {"acceptors", "acc"}, {"rejectors", "rej"}} {
+		if vcdInt(v, f[0]) == 1 {
+			out = append(out, vcdPartAddr(kind, f[1]+"1"), vcdPartAddr(kind, f[1]+"2"))
+		}
+	}
+	if vcdInt(v, "fgroup") == 1 {
+		for k := 1; k <= 3; k++ {
+			out = append(out, vcdAddr(kind, k))
+		}
+	}
+	return out
+}
+
+func vcdAddrKindOf(v map[string]any, d *DBState) string {
+	got := vcdAddrsOf(d)
+	if len(got) == 0 {
+		return vcdStr(v, "addr")
+	}
+	for _, kind := range vcdAddrKinds {
+		if reflect.DeepEqual(got, vcdExpectedAddrs(v, kind)) {
+			return kind
+		}
+	}
+	// lists of another shape are reported by the presence bits; compare what is there pairwise
+	exp := vcdExpectedAddrs(v, vcdStr(v, "addr"))
+	for i, a := range got {
+		if i < len(exp) && a != exp[i] {
+			return "other:" + a
+		}
+	}
+	return vcdStr(v, "addr")
 }
 
 var (
@@ -69,12 +172,12 @@ var (
 	vcdTimeoutT = time.Unix(1600000500, 0).UTC()
 )
 
-func vcdFinalGroup(sch *crypto.Scheme, n, thr int, coeffs int) *key.Group {
+func vcdFinalGroup(sch *crypto.Scheme, kind string, n, thr int, coeffs int) *key.Group {
 	g := &key.Group{Threshold: thr, Period: 30 * time.Second, CatchupPeriod: 15 * time.Second, Scheme: sch, ID: "a",
 		GenesisTime: vcdGenesisT.Unix(), TransitionTime: 1600003000, GenesisSeed: vcdBytes("S")}
 	for k := 1; k <= n; k++ {
 		g.Nodes = append(g.Nodes, &key.Node{Index: uint32(2*k - 1), Identity: &key.Identity{
-			Key: vcdPoint(sch, fmt.Sprintf("node:N%d", k)), Addr: fmt.Sprintf("node%d.verif.test:44%d", k, k),
+			Key: vcdPoint(sch, fmt.Sprintf("node:N%d", k)), Addr: vcdAddr(kind, k),
 			Signature: []byte(fmt.Sprintf("signature-of-N%d", k)), Scheme: sch}})
 	}
 	if coeffs > 0 {
@@ -87,6 +190,10 @@ func vcdFinalGroup(sch *crypto.Scheme, n, thr int, coeffs int) *key.Group {
 }
 
 func vcdState(sch *crypto.Scheme, v map[string]any) *DBState {
+	kind := vcdStr(v, "addr")
+	if kind == "" {
+		kind = "host"
+	}
 	d := &DBState{
 		BeaconID:      "a",
 		Epoch:         3,
@@ -97,23 +204,23 @@ func vcdState(sch *crypto.Scheme, v map[string]any) *DBState {
 		GenesisTime:   vcdGenesisT,
 		CatchupPeriod: 15 * time.Second,
 		BeaconPeriod:  30 * time.Second,
-		Remaining:     vcdParts(sch, vcdInt(v, "remaining"), "rem"),
-		Joining:       vcdParts(sch, vcdInt(v, "joining"), "join"),
-		Leaving:       vcdParts(sch, vcdInt(v, "leaving"), "leave"),
-		Acceptors:     vcdParts(sch, vcdInt(v, "acceptors"), "acc"),
-		Rejectors:     vcdParts(sch, vcdInt(v, "rejectors"), "rej"),
+		Remaining:     vcdParts(sch, kind, vcdInt(v, "remaining"), "rem"),
+		Joining:       vcdParts(sch, kind, vcdInt(v, "joining"), "join"),
+		Leaving:       vcdParts(sch, kind, vcdInt(v, "leaving"), "leave"),
+		Acceptors:     vcdParts(sch, kind, vcdInt(v, "acceptors"), "acc"),
+		Rejectors:     vcdParts(sch, kind, vcdInt(v, "rejectors"), "rej"),
 	}
 	if vcdInt(v, "timeout") == 1 {
 		d.Timeout = vcdTimeoutT
 	}
 	if vcdInt(v, "leader") == 1 {
-		d.Leader = vcdPart(sch, "leader")
+		d.Leader = vcdPart(sch, kind, "leader")
 	}
 	if vcdInt(v, "seed") == 1 {
 		d.GenesisSeed = vcdBytes("S")
 	}
 	if vcdInt(v, "fgroup") == 1 {
-		d.FinalGroup = vcdFinalGroup(sch, 3, 2, 2)
+		d.FinalGroup = vcdFinalGroup(sch, kind, 3, 2, 2)
 	}
 	if vcdInt(v, "share") == 1 {
 		d.KeyShare = &key.Share{Scheme: sch, DistKeyShare: kdkg.DistKeyShare{
@@ -258,7 +365,7 @@ func TestVerifCodecDKG(t *testing.T) {
 				}
 				st := vcdState(sch, map[string]any{"status": float64(Complete), "leader": 1.0, "remaining": 1.0, "joining": 0.0, "leaving": 0.0,
 					"acceptors": 1.0, "rejectors": 0.0, "seed": 1.0, "fgroup": 0.0, "share": 0.0, "timeout": 1.0})
-				st.FinalGroup = vcdFinalGroup(sch, n, n/2+1, co)
+				st.FinalGroup = vcdFinalGroup(sch, "host", n, n/2+1, co)
 				tt := st.TOML()
 				tt.FinalGroup.Threshold = bad
 				if vcdStr(v, "kind") == "scheme_unknown" {
@@ -339,6 +446,7 @@ func TestVerifCodecDKG(t *testing.T) {
 			}
 			if ev["err"] == "" {
 				p, diff := vcdProject(orig, d2)
+				p["addr"] = vcdAddrKindOf(v, d2)
 				ev["p"] = p
 				if len(diff) > 0 {
 					ev["rest"], ev["restdiff"] = false, strings.Join(diff, ",")
